@@ -122,13 +122,41 @@ def emitTypeSet (ts : TypeSet) : Enc → ERes Unit :=
     seqAll ((freshWindows ts.types).map fun wb =>
       seqAll ([fun e => e.emitU8 wb.1, fun e => e.emitU8 (wb.2.length % 256)] ++ wb.2.map fun b => fun e => e.emitU8 b))
 
+/-- consecutive chunks of `n` octets (the last one may be shorter) -/
+def chunks (n : Nat) : Nat → Bytes → List Bytes
+  | 0, _ => []
+  | _, [] => []
+  | fuel + 1, l => l.take (max n 1) :: chunks n fuel (l.drop (max n 1))
+
+/-- `impl BinEncodable for SvcParamValue`, the part between the length place and its back-patch:
+`Mandatory` / `Alpn` refuse an empty list; `IpHint` emits address by address (`A`: one slice of four
+octets, `AAAA`: eight `u16`) -/
+def emitSvcVal : SvcVal → Enc → ERes Unit
+  | .mandatory keys => fun e =>
+    if keys.isEmpty then .err .other e else seqAll (keys.map fun k => fun e1 => e1.emitU16 k) e
+  | .alpn ids => fun e =>
+    if ids.isEmpty then .err .other e else seqAll (ids.map fun a => fun e1 => e1.emitCharacterData a) e
+  | .noDefaultAlpn => emitNothing
+  | .port p => fun e => e.emitU16 p
+  | .ipv4hint addrs => seqAll ((chunks 4 addrs.length addrs).map fun a => fun e => e.emitSlice a)
+  | .ech d => fun e => e.emitSlice d
+  | .ipv6hint addrs => seqAll ((chunks 16 addrs.length addrs).map emitPairs)
+  | .unknown d => fun e => e.emitSlice d
+
+/-- the parameter loop of `SVCB::emit`: keys must be strictly increasing (`SvcParams out of order`) -/
+def emitSvcParams : Option Nat → List (Nat × SvcVal) → Enc → ERes Unit
+  | _, [] => emitNothing
+  | last, (k, v) :: rest => fun e =>
+    if (match last with | some lk => decide (k ≤ lk) | none => false) then .err .other e
+    else Enc.seq (fun e1 => e1.emitU16 k) (Enc.seq (Enc.lenPrefixedTry (emitSvcVal v)) (emitSvcParams (some k) rest)) e
+
 /-- has `RData::emit` a model for this variant? -/
 def RData.emitModelled : RData → Bool
   | .a _ | .aaaa _ | .name _ | .mx _ _ | .soa _ _ _ _ _ _ _ | .txt _ | .srv _ _ _ _ | .hinfo _ _
   | .null _ | .unknown _ _ | .opt _ | .update0 _ | .zero | .tsig _ _ _ _ _ _ _
   | .ds _ _ _ _ | .dnskey _ _ _ _ | .tlsa _ _ _ _ | .sshfp _ _ _ | .openpgpkey _ | .cert _ _ _ _
   | .nsec3param _ _ _ | .caa _ _ _ _ | .key _ _ _ _ | .naptr _ _ _ _ _ _
-  | .sig _ _ _ _ _ _ _ _ _ | .nsec _ _ | .nsec3 _ _ _ _ _ _ | .csync _ _ _ => true
+  | .sig _ _ _ _ _ _ _ _ _ | .nsec _ _ | .nsec3 _ _ _ _ _ _ | .csync _ _ _ | .svcb _ _ _ => true
   | _ => false
 
 /-- `impl BinEncodable for RData` for a record of type `t` (the type selects the
@@ -212,6 +240,9 @@ def emitRData (t : Nat) : RData → Enc → ERes Unit
             fun e => e.emitU8 (hash.length % 256), fun e => e.emitSlice hash, emitTypeSet ts]
   | .csync serial flags ts =>                                 -- `flags()` reassembles the decoded word
     seqAll [fun e => e.emitU32 serial, fun e => e.emitU16 flags, emitTypeSet ts]
+  | .svcb prio target ps =>                                   -- SVCB / HTTPS
+    fun e => e.withRdataBehavior .other
+      (seqAll [fun e1 => e1.emitU16 prio, fun e1 => Name.emit e1 target, emitSvcParams none ps])
   | _ => fun _ => .panic "unmodelled-rdata-emit"
 
 /-! ## record -/
